@@ -234,6 +234,49 @@ def _declarator_siblings(prog, chk):
     chk.count('additional declarator nodes', n_, 1)
 
 
+def return_slot_obligations(prog, R):
+    """The value of an executed `return` travels through an evaluator member (found by effect: the member the ReturnStatement
+    branch of exec assigns the evaluated operand to).  An activation function that reads it into its result must not leave a copy
+    behind: the copy keeps a returned object alive until the next call — or until teardown, where neither destructors nor
+    @tracked fields are recorded any more (`Q a = make(); … measure a.q;` then reports nothing for Q.q, and the destructor of the
+    temporary in `mk(9).v` never runs).  → [(function, line, ok, detail, key)]"""
+    ex = R.ev_method('exec')
+    slots = set()
+    for n in SX.walk(ex.body, into_lambdas=False):
+        w = SX.write_target(n)
+        if w and w[2] == '=' and SX.is_this_member(SX.strip(w[0])) and SX.is_node(SX.strip(w[1])) and SX.strip(w[1]).get('k') == 'mcall' \
+                and SX.short(SX.strip(w[1]).get('callee', '')) == 'eval' and 'Value' in (SX.strip(w[0]).get('t') or ''):
+            slots.add(SX.strip(w[0])['name'])
+    out = []
+    if len(slots) != 1:
+        raise AnalysisBroken('return-value slot of the evaluator not resolved: %s' % sorted(slots))
+    slot = slots.pop()
+    for f in [x for x in R.ev_methods() if x.body]:
+        g = prog.cfg(f)
+        for d in g.nodes:
+            if d.kind != 'decl' or not SX.is_node(d.e.get('init')):
+                continue
+            i0 = SX.strip(d.e['init'])
+            moved = False
+            while SX.is_node(i0) and ((i0.get('k') == 'call' and (i0.get('callee') or '').startswith('std::move') and len(SX.real_args(i0)) == 1) or
+                                      (i0.get('k') == 'construct' and len(SX.real_args(i0)) == 1) or i0.get('k') == 'cast'):
+                if i0.get('k') == 'call':
+                    moved = True
+                i0 = SX.strip(SX.real_args(i0)[0] if i0['k'] != 'cast' else i0['e'])
+            if not SX.is_this_member(i0, slot):
+                continue
+            rets = [r for r in g.nodes if r.kind == 'return' and SX.is_node(SX.strip(r.e.get('e'))) and SX.strip(r.e['e']).get('id') == d.e.get('id')]
+            if not rets:
+                continue        # a saved copy that is put back (destructor activations), not a result
+            resets = [n for n, l, r, op in g.writes() if op == '=' and SX.is_this_member(SX.strip(l), slot) and SX.is_node(SX.strip(r)) and
+                      SX.strip(r).get('k') in ('initlist', 'construct') and not (SX.strip(r).get('items') or SX.real_args(SX.strip(r)))]
+            ok = bool(resets) and all(g.must_follow(d, resets) for _ in (0,))
+            out.append((f, d.ln or f.ln, ok,
+                        '%s reads the returned value out of %s%s; the slot is emptied on every normal path afterwards (otherwise the returned object stays referenced after the '
+                        'call: its destructor and its @tracked fields are then missed when it dies at teardown)' % (f.short, slot, ' (moved)' if moved else ''), 'return-slot:' + f.short))
+    return out
+
+
 def _runtime_field_builders(prog, chk, R):
     """The evaluator builds its per-class field descriptions in more than one place (ordinary classes in the class-table pass,
     specialisations of generic classes on demand).  Every builder must copy the same attributes from the field declaration —
@@ -318,6 +361,11 @@ def _cli(prog, chk, R):
     _shots_pair(prog, chk)
     _declarator_siblings(prog, chk)
     _runtime_field_builders(prog, chk, R)
+    chk.rule('R17.8', 'the owner of a tracked field ends inside the run: no evaluator member keeps a returned object alive after the call that returned it')
+    obs = return_slot_obligations(prog, R)
+    for f_, ln_, ok_, detail_, key_ in obs:
+        chk.ob('R17.8', f_, ln_, ok_, detail_, key=key_)
+    chk.count('activation functions that read the return slot', len(obs), 2)
     f = cli_run_function(prog, 'trackedCounts')
     from ..kernels import enclosing_stmts
     # aggregate accumulation inside the shot loop
